@@ -126,6 +126,7 @@ Section S.
           | Some z => (Normal (if (z <? k)%Z then VT else VNil), st)
           | None => (Err CUnbound, st)
           end
+      | Setv x z => (Normal (VInt z), set_var x z st)
       | CallList args =>
           match s_args (ev bl tg) args [] st with
           | (inr vs, st1) => (Normal (mk_list vs), st1)
@@ -252,7 +253,7 @@ Section MV.
 End MV.
 Fixpoint mvfree (f : form) {struct f} : bool :=
   match f with
-  | Const _ | Tr _ | Signal _ | Incf _ | Lt _ _ | CallList _ | Progn _ | Tagbody _
+  | Const _ | Tr _ | Signal _ | Incf _ | Lt _ _ | Setv _ _ | CallList _ | Progn _ | Tagbody _
   | ReturnFrom _ _ | Return _ | Go _ => true
   | When _ body | Let _ body | WithMutex _ body | WithFile _ body => last_ok mvfree body
   | Cond cs => clauses_ok mvfree cs
@@ -294,7 +295,7 @@ End Guard.
 
 Fixpoint gd (pb : bool) (R G : list N) (f : form) {struct f} : bool :=
   match f with
-  | Const _ | Tr _ | Signal _ | Incf _ | Lt _ _ => true
+  | Const _ | Tr _ | Signal _ | Incf _ | Lt _ _ | Setv _ _ => true
   | CallList args => g_all gd pb [] [] args
   | Progn body => g_seq gd pb [] [] R G body
   | When c body => mvfree c && gd pb [] [] c && g_seq gd pb [] [] R G body
@@ -335,6 +336,7 @@ Fixpoint wf (f : form) {struct f} : bool :=
                 match is with [] => true | ITag _ :: r => alli r | IForm f :: r => compound f && wf f && alli r end in
   match f with
   | Const _ | Tr _ | Signal _ | Incf _ | Lt _ _ | Go _ | CallU _ => true
+  | Setv x _ => Nat.ltb x NVARS
   | CallList fs | Progn fs | Block _ fs | IgnoreErrors fs | WithMutex _ fs | WithFile _ fs | Lam fs => all fs
   | When c fs | Recover c fs => wf c && all fs
   | Cond cs =>
